@@ -175,6 +175,27 @@ def _compute(ctx, suf, entry, monitor_kind, log=None):
     return out
 
 
+def trim_cache(limit_bytes=2500 * 1024 * 1024):
+    """keep /verif/.cache below the limit: oldest exploration / pre-analysis files go first"""
+    try:
+        files = []
+        for f in os.listdir(CACHE):
+            if f.startswith(('e1_', 'needs_')):
+                p = os.path.join(CACHE, f)
+                files.append((os.path.getmtime(p), os.path.getsize(p), p))
+        total = sum(x[1] for x in files)
+        for _, size, p in sorted(files):
+            if total <= limit_bytes:
+                break
+            try:
+                os.unlink(p)
+                total -= size
+            except OSError:
+                pass
+    except OSError:
+        pass
+
+
 def witness_of(r, nid):
     """witness string for node nid of a cached result"""
     class _R(object):
@@ -207,15 +228,7 @@ def get(ctx, suf, entry='single-mm', monitor_kind='dfa', log=None):
         with open(tmp, 'wb') as f:
             pickle.dump(r, f, protocol=pickle.HIGHEST_PROTOCOL)
         os.replace(tmp, path)
-        # keep the cache small
-        olds = sorted((os.path.getmtime(os.path.join(CACHE, f)), f) for f in os.listdir(CACHE)
-                      if f.startswith('e1_') and f.endswith('.pkl'))
-        for _, f in olds[:-60]:
-            try:
-                os.unlink(os.path.join(CACHE, f))
-                os.unlink(os.path.join(CACHE, f + '.lock'))
-            except OSError:
-                pass
+        trim_cache()
         return r
     finally:
         fcntl.flock(lock, fcntl.LOCK_UN)
